@@ -7,6 +7,8 @@ import (
 	"context"
 
 	"github.com/ava-labs/avalanchego/trace"
+
+	"github.com/ava-labs/hypersdk/internal/verifhook"
 )
 
 type Accepter struct {
@@ -33,6 +35,7 @@ func (a *Accepter) AcceptBlock(ctx context.Context, blk *OutputBlock) error {
 
 	a.metrics.txsAccepted.Add(float64(len(blk.StatelessBlock.Txs)))
 	a.validityWindow.Accept(blk)
+	verifhook.Point("chain.accept.beforeCommit")
 
 	return blk.View.CommitToDB(ctx)
 }
